@@ -95,8 +95,12 @@ def main():
         def cutrand(stream):
             n = rng.randrange(0, min(6, len(stream)))
             return chunk(stream, sorted(rng.sample(range(1, len(stream)), n)))
-        a_s = arrivals_of(cutrand(b"".join(rs)), rng.randrange(1 << 31), True)
-        a_c = arrivals_of(cutrand(b"".join(rc)), rng.randrange(1 << 31), False)
+        # any initial sequence numbers: also the same one in both directions (the two directions' sequence spaces have nothing to do with each other)
+        isn_s = rng.choice([0, 1, 1000, rng.randrange(1 << 31), (1 << 32) - rng.randrange(1, 30)])
+        isn_c = isn_s if rep % 3 == 0 else (isn_s + rng.randrange(0, 12)) % (1 << 32) if rep % 3 == 1 else rng.randrange(1 << 31)
+        hist["isn=%s" % ("same" if rep % 3 == 0 else "close" if rep % 3 == 1 else "unrelated")] += 1
+        a_s = arrivals_of(cutrand(b"".join(rs)), isn_s, True)
+        a_c = arrivals_of(cutrand(b"".join(rc)), isn_c, False)
         merged = [dict(p) for p in capgen.merge(rng, [[{"a": x} for x in a_s], [{"a": x} for x in a_c]])]
         arr = [m["a"] for m in merged]
         got = records_handed(impl, arr)
